@@ -44,6 +44,7 @@ type spPod struct {
 	kube    string
 	cpus    []int
 	badAnno bool
+	term    bool // graceful deletion started (deletionTimestamp set); the pod still runs on its CPUs until it is removed
 	nc      int
 	use     int64
 	hasDir  bool
@@ -647,6 +648,16 @@ func (s *spSim) buildPod(p *spPod) {
 	}
 	p.obj = pod
 	p.meta = &statesinformer.PodMeta{Pod: pod, CgroupDir: koordletutil.GetPodCgroupParentDir(pod)}
+}
+
+// markTerminating: the API server has accepted a graceful delete; kubelet (and therefore the agent's pod list) keeps the pod,
+// with its containers and CPU allocation, until the grace period is over (modelled by the later pod_del).
+func (s *spSim) markTerminating(p *spPod) {
+	p.term = true
+	now := metav1.NewTime(time.Now())
+	grace := int64(30)
+	p.obj.DeletionTimestamp = &now
+	p.obj.DeletionGracePeriodSeconds = &grace
 }
 
 // ---------------------------------------------------------------- fake StatesInformer
